@@ -104,12 +104,22 @@ func (p Prefix) Match(key string, match *PrefixMatch) (ok bool) {
 	//	 $ aws s3 ls s3://my-bucket/AWSLogs/2608
 	//	                            PRE 260839334643/
 
-	keyParts := strings.Split(strings.TrimLeft(key, p.Delimiter), p.Delimiter)
-	preParts := strings.Split(strings.TrimLeft(p.Prefix, p.Delimiter), p.Delimiter)
-
-	if len(keyParts) < len(preParts) {
+	trimmedKey := strings.TrimLeft(key, p.Delimiter)
+	trimmedPrefix := strings.TrimLeft(p.Prefix, p.Delimiter)
+	if !strings.HasPrefix(trimmedKey, trimmedPrefix) {
 		return false
 	}
+
+	// Delimiters are looked for in the part of the key that follows the
+	// prefix: a multi-byte delimiter may straddle the end of the prefix (the
+	// prefix ends inside the delimiter character), and that occurrence does
+	// not split the key.
+	preParts := strings.Split(trimmedPrefix, p.Delimiter)
+	restParts := strings.Split(trimmedKey[len(trimmedPrefix):], p.Delimiter)
+	keyParts := make([]string, 0, len(preParts)+len(restParts)-1)
+	keyParts = append(keyParts, preParts[:len(preParts)-1]...)
+	keyParts = append(keyParts, preParts[len(preParts)-1]+restParts[0])
+	keyParts = append(keyParts, restParts[1:]...)
 
 	// If the key exactly matches the prefix, but only up to a delimiter,
 	// AWS appends the delimiter to the result:
